@@ -305,7 +305,11 @@ fn c11_dyn_process_join_accept_eu868() { tape::init(); process_join_accept_contr
 fn c09_dyn_process_join_accept_kf2_witness() { tape::init(); process_join_accept_contract(EU868::new_eu868(), true) }
 
 // ------------------------------------------------------------------ select_tx_channel (C09) with progress obligation
-fn select_tx_channel_contract<R: DynamicChannelRegion + Clone>(fresh: DynamicChannelPlan<R>, join: bool) {
+/// does the channel's recorded data-rate range (NewChannelReq / regional default) admit `dr`?
+fn range_admits(c: &Channel, dr: u8) -> bool { c._datarates.min_data_rate() <= dr && dr <= c._datarates.max_data_rate() }
+fn select_tx_channel_contract<R: DynamicChannelRegion + Clone>(fresh: DynamicChannelPlan<R>, join: bool) { select_tx_channel_contract_kf(fresh, join, false) }
+/// `kf6`: KF-C09-6 partition -- the witness runs on plans where the accepting channel's range excludes the data rate
+fn select_tx_channel_contract_kf<R: DynamicChannelRegion + Clone>(fresh: DynamicChannelPlan<R>, join: bool, kf6: bool) {
     let mut p = any_plan(fresh);
     kani::assume(wf_plan(&p));
     let dr = tape::u8();
@@ -314,7 +318,15 @@ fn select_tx_channel_contract<R: DynamicChannelRegion + Clone>(fresh: DynamicCha
     // an accepting draw exists by the invariant: join -> channel 0; data -> some enabled & defined channel w
     let w = tape::below(16);
     kani::assume(join || (p.channel_mask.is_enabled(w).unwrap() && p.channels[w].is_some()));
-    let mut rng = TapeRng { draws: 0, free: 2, accept: if join { 0 } else { w as u32 } };
+    if !join {
+        // KF-C09-6 selector: some enabled, defined channel does not admit the configured data rate
+        let mut all_admit = true;
+        let mut i = 0;
+        while i < 16 { if let Some(c) = p.channels[i] { if p.channel_mask.is_enabled(i).unwrap() && !range_admits(&c, dr) { all_admit = false; } } i += 1; }
+        kani::assume(all_admit != kf6);
+        if kf6 { kani::assume(!range_admits(&p.channels[w].unwrap(), dr)); }
+    }
+    let mut rng = TapeRng { draws: 0, free: if kf6 { 0 } else { 2 }, accept: if join { 0 } else { w as u32 } };
     let frame = if join { Frame::Join } else { Frame::Data };
     let tx = p.select_tx_channel(&mut rng, DR::from(dr), &frame);
     assert!(plan_eq(&p, &old), "select_tx_channel does not modify the plan");
@@ -325,11 +337,11 @@ fn select_tx_channel_contract<R: DynamicChannelRegion + Clone>(fresh: DynamicCha
         if let Some(c) = old.channels[i] {
             let enabled = old.channel_mask.is_enabled(i).unwrap();
             let candidate = if join { i < R::NUM_JOIN_CHANNELS as usize } else { enabled };
-            if candidate && c.frequency == tx.frequency && c.rx1_frequency() == tx.rx1_frequency { found = true; }
+            if candidate && c.frequency == tx.frequency && c.rx1_frequency() == tx.rx1_frequency && (join || range_admits(&c, dr)) { found = true; }
         }
         i += 1;
     }
-    assert!(found, "C09 the uplink goes out on a defined, enabled channel (join: a join channel); C10 RX1 frequency is the one paired with it");
+    assert!(found, "C09 the uplink goes out on a defined, enabled channel (join: a join channel) whose data-rate range admits the data rate used; C10 RX1 frequency is the one paired with it");
     kani::cover!(true, "verif-reached: a channel was selected");
 }
 // @verif props=C04,C09,C10 obligation=DynamicChannelPlan::select_tx_channel.contract[Data,EU868] label=proved-complete tier=quick bound="random streams = 2 arbitrary draws then an accepting draw whose existence follows from the invariant; termination against an adversarial stream needs A-rng (meta)"
@@ -339,6 +351,11 @@ fn c09_dyn_select_tx_channel_data_eu868() {
     tape::init();
     select_tx_channel_contract(EU868::new_eu868(), false)
 }
+// witness of KF-C09-6 (EU433: DR6 is SF7/250 kHz, the default channels admit DR0..5), expected to FAIL while the finding is open
+// @verif props=C09 obligation=DynamicChannelPlan::select_tx_channel.contract[Data,EU433,KF-C09-6] label=proved-complete tier=quick finding=KF-C09-6
+#[kani::proof]
+#[kani::unwind(17)]
+fn c09_dyn_select_tx_channel_kf6_witness() { tape::init(); select_tx_channel_contract_kf(EU433::new_eu433(), false, true) }
 // @verif props=C04,C09,C10 obligation=DynamicChannelPlan::select_tx_channel.contract[Join,EU868] label=proved-complete tier=quick bound="random streams = 2 arbitrary draws then an accepting draw"
 #[kani::proof]
 #[kani::unwind(17)]
